@@ -243,6 +243,12 @@ pub fn gen_combined(rng: &mut Rng, cfg: &GenCfg) -> T {
   let mut outer = gen_map(rng, &gen_text, false, &default_content);
   let k = rng.below(outer.sources.len());
   outer.sources[k] = inner_name.to_string();
+  // outer names that really occur in the inner map's file contents at the composed locations (the "outer name only if it matches the
+  // original text" branch is otherwise never taken: seed S55)
+  if !cfg.fixed_files && rng.chance(2) {
+    const POOL: &[&str] = &["a", "ab", "b", "b;", ";", "c", "cd", "d", "s", "se", "e", "t", "th", "h", "ab;cd", "second", "third"];
+    for nm in outer.names.iter_mut() { if rng.chance(2) { *nm = POOL[rng.below(POOL.len())].to_string(); } }
+  }
   // a file named like the generated text (such a name once served as de-duplication key for the inner source: F15)
   if !cfg.fixed_files && !gen_text.is_empty() && rng.chance(8) {
     if outer.sources.len() > 1 && rng.chance(2) { let k2 = (k + 1) % outer.sources.len(); outer.sources[k2] = gen_text.clone(); }
@@ -258,6 +264,26 @@ pub fn gen_combined(rng: &mut Rng, cfg: &GenCfg) -> T {
         o.original_line = l as u32 + 1;
         o.original_column = rng.below(lines[l].len().max(1)) as u32;
       }
+    }
+  }
+  // name rule: give some outer segments a name that is exactly the original text at the location the inner map assigns (seed S55)
+  if !cfg.fixed_files && !self_named && rng.chance(3) {
+    let ims: Vec<Mapping> = SourceMap::new(inner.mappings.clone(), vec![], vec![], vec![]).decoded_mappings().collect();
+    for m in ms.iter_mut() {
+      let Some(o) = m.original.as_mut() else { continue };
+      if o.source_index as usize != k || rng.chance(3) { continue }
+      let Some(seg) = ims.iter().filter(|x| x.generated_line == o.original_line && x.generated_column <= o.original_column).last() else { continue };
+      let Some(io) = &seg.original else { continue };
+      let Some(content) = inner.contents.get(io.source_index as usize) else { continue };
+      let Some(line) = content.split_inclusive('\n').nth(io.original_line.saturating_sub(1) as usize) else { continue };
+      let start = io.original_column as usize;
+      let len = 1 + rng.below(2);
+      let Some(sub) = line.get(start..(start + len).min(line.len())) else { continue };
+      if sub.is_empty() || sub.contains('\n') { continue }
+      if outer.names.is_empty() { outer.names.push("n0".into()); }
+      let j = rng.below(outer.names.len());
+      outer.names[j] = sub.to_string();
+      o.name_index = Some(j as u32);
     }
   }
   outer.mappings = encode_mappings(ms.into_iter());
